@@ -37,16 +37,11 @@ func c10FormTargets() []c10Target {
 
 func TestVerifC10Forms(t *testing.T) {
 	c10Quiet()
+	if s, _ := vrep.Shard(); s != 0 || vrep.ReplayPath() != "" {
+		return // small: runs in shard 0 only
+	}
 	r := vrep.New("C10", "rule-forms")
 	defer r.Flush()
-	if vrep.ReplayPath() != "" {
-		return
-	}
-	if s, n := vrep.Shard(); n > 1 && s != 0 {
-		r.Note("rule-forms runs in shard 0 only")
-		r.Executions, r.Distinct = 1, 2 // nothing to do here; the real numbers are in shard 0
-		return
-	}
 	au := c10NewAudit()
 	forms := c10FormTargets()
 	var names []string
@@ -86,7 +81,7 @@ func TestVerifC10Forms(t *testing.T) {
 				r.Executions++
 				distinct[fmt.Sprintf("%s|%s|%s|%d", res.endKeys, res.endModel, pl.f, res.stoppedAt)] = struct{}{}
 				cs := c10Case{History: c10Show(forms, h), FaultAt: pl.at, Fault: pl.f.String()}
-				if len(res.findings) == 0 && pl.at == 1 && len(h) == 1 {
+				if len(res.findings) == 0 && pl.f == crashds.FaultStopAfter && len(h) == 1 && (i == 4 || i == 6) {
 					r.Sample(map[string]any{"case": cs, "surviving_keys": res.endKeys, "model": res.endModel, "verdict": "ok"})
 				}
 				seen := map[string]bool{}
